@@ -33,6 +33,22 @@ RISK_PARAMS = [("replace_order", "new_price", "REPLACE"), ("update_order", "size
                ("update_order", "new_price", "UPDATE (Betdaq)")]
 
 
+def control_always_validates(ctx, rep, R):
+    """calling a control runs its _validate on that order, on every path (shared with C17-R2)"""
+    prog = ctx.prog
+    call = prog.own_method("BaseControl", "__call__")
+    cs = [c for c in walk_calls(call.node.body) if call_name(c) == "_validate"]
+    cfgc = ctx.cfg(call)
+    good = len(cs) == 1 and [utext(a) for a in cs[0].args] == call.params[1:3]
+    if good:
+        n = [x for x in cfgc.live_nodes() if cs[0] in walk_calls(x.exprs)][0]
+        good = cfgc.unconditional(n.id)
+    rep.check(good, R, key(call, None, "a control always validates the order it is given"), call)
+    for sc in prog.cls("BaseControl").all_subclasses():
+        rep.check("__call__" not in sc.methods and "_on_error" not in sc.methods, R,
+                  "%s does not override __call__ / _on_error" % sc.name)
+
+
 def run(ctx, rep):
     prog, res = ctx.prog, ctx.res
     from rules.c02 import validation_node
@@ -85,7 +101,7 @@ def run(ctx, rep):
     cfg = ctx.cfg(init)
     regs = [(n, c) for n, c in node_calls(cfg, "add_trading_control")]
     names = [utext(c.args[0]) for n, c in sorted(regs, key=lambda x: x[1].lineno)]
-    uncond = all(not cfg.guards(n.id) for n, c in regs)
+    uncond = all(cfg.unconditional(n.id) for n, c in regs)
     need = ["OrderValidation", "MarketValidation", "StrategyExposure"]
     have = [n for n in names if n in need]
     rep.check(have == need and uncond, "R3",
@@ -108,19 +124,9 @@ def run(ctx, rep):
     vi = [n for n, c in node_calls(cfg, "violation") if recv_text(c) == oe.params[1]]
     ra = [n for n in cfg.live_nodes() if n.kind == "raise" and utext(n.ast.exc.func) == "ControlError"]
     good = len(vi) == 1 and len(ra) == 1 and cfg.exit not in cfg.reachable(cfg.entry) and \
-        cfg.dominates(vi[0].id, ra[0].id) and not cfg.guards(vi[0].id)
+        cfg.dominates(vi[0].id, ra[0].id) and cfg.unconditional(vi[0].id)
     rep.check(good, "R4", key(oe, None, "marks the violation, then always raises ControlError"), oe)
-    call = prog.own_method("BaseControl", "__call__")
-    cs = [c for c in walk_calls(call.node.body) if call_name(c) == "_validate"]
-    cfgc = ctx.cfg(call)
-    good = len(cs) == 1 and [utext(a) for a in cs[0].args] == call.params[1:3]
-    if good:
-        n = [x for x in cfgc.live_nodes() if cs[0] in walk_calls(x.exprs)][0]
-        good = not cfgc.guards(n.id)
-    rep.check(good, "R4", key(call, None, "a control always validates the order it is given"), call)
-    for sc in prog.cls("BaseControl").all_subclasses():
-        rep.check("__call__" not in sc.methods and "_on_error" not in sc.methods, "R4",
-                  "%s does not override __call__ / _on_error" % sc.name)
+    control_always_validates(ctx, rep, "R4")
 
     # ------------------------------------------------------------------ R5 the three limit tests
     se = prog.own_method("StrategyExposure", "_validate")
@@ -504,4 +510,8 @@ MUTANTS = [
     dict(id="c01-order-limit-ge", file=_TC, func="StrategyExposure._validate",
          old="                and order_exposure > strategy.max_order_exposure", new="                and order_exposure < strategy.max_order_exposure",
          expect=["R5"], why="per-order limit inverted"),
+    dict(id="c01-control-exchange-filter", file="flumine/controls/__init__.py", func="BaseControl.__call__",
+         old="        self._validate(order, package_type)",
+         new="        if getattr(self, 'EXCHANGES', None) and order.EXCHANGE not in self.EXCHANGES:\n            return\n        self._validate(order, package_type)",
+         expect=["R4"], why="a compound early return leads round the validation"),
 ]
